@@ -14,9 +14,30 @@ def sh(cmd, cwd=None, timeout=3600):
 def main():
     wt, diff, demo, name, prop = sys.argv[1:6]
     nosuite = "--no-suite" in sys.argv
+    confirm_only = "--confirm-only" in sys.argv
+    check_only = "--check-only" in sys.argv
     diff, demo = os.path.abspath(diff), os.path.abspath(demo)
     meta = {"name": name, "property": prop, "ran": []}
+    d = os.path.join("/verif/seeded", name)
+    os.makedirs(d, exist_ok=True)
+    if check_only:
+        meta = json.load(open(os.path.join(d, "meta.json")))
+        ok_clean = fails = suite_ok = None
     # --- 1. confirm in the scratch worktree
+    if not check_only:
+      confirm(wt, diff, demo, name, meta, nosuite)
+      ok_clean, fails, suite_ok = meta["_c"]
+      del meta["_c"]
+      meta["confirmed"] = bool(ok_clean and fails and (suite_ok or nosuite))
+      shutil.copy(diff, os.path.join(d, "patch.diff"))
+      shutil.copy(demo, os.path.join(d, "demo.rs"))
+      json.dump(meta, open(os.path.join(d, "meta.json"), "w"), indent=1)
+    if confirm_only:
+        return
+    check(diff, name, prop, meta, d)
+
+
+def confirm(wt, diff, demo, name, meta, nosuite):
     sh("git checkout -- src", cwd=wt)
     for f in os.listdir(os.path.join(wt, "tests")):
         if f.startswith("seed_demo"):
@@ -35,11 +56,19 @@ def main():
     os.remove(os.path.join(wt, "tests", tname + ".rs"))
     suite_ok = None
     if not nosuite:
-        rc2, out2 = sh("cargo test --workspace --no-fail-fast --offline 2>&1 | grep -E 'test result|FAILED|error(\\[|:)' | sort | uniq -c | sort -rn | head -8", cwd=wt)
-        suite_ok = "FAILED" not in out2 and "failed" not in out2.replace("0 failed", "") and "error" not in out2
-        meta["ran"].append({"cmd": "cargo test --workspace --no-fail-fast --offline (with change, demo removed)", "passed": suite_ok, "summary": out2[-500:]})
+        rc2, out2 = sh("cargo test --workspace --no-fail-fast --offline 2>&1", cwd=wt)
+        nres = len(re.findall(r"^test result: ok", out2, re.M))
+        nfail = len(re.findall(r"^test result: FAILED", out2, re.M)) + len(re.findall(r"^error(\[|:)", out2, re.M))
+        npass = sum(int(x) for x in re.findall(r"^test result: ok\. (\d+) passed", out2, re.M))
+        suite_ok = nfail == 0 and nres > 20
+        meta["ran"].append({"cmd": "cargo test --workspace --no-fail-fast --offline (with change, demo removed)", "passed": suite_ok,
+                            "summary": f"{nres} test binaries ok, {npass} tests passed, {nfail} failed/errors"})
     sh("git checkout -- src", cwd=wt)
     print(f"[{name}] demo clean={ok_clean} demo-with-change-fails={fails} suite-with-change-passes={suite_ok}")
+    meta["_c"] = (ok_clean, fails, suite_ok)
+
+
+def check(diff, name, prop, meta, d):
     # --- 2. run the checks against it
     rc, out = sh(f"git -C /repo apply {diff}")
     if rc != 0:
@@ -65,16 +94,7 @@ def main():
     meta["checks_fired"] = sorted(fired)
     meta["caught"] = bool(fired)
     meta["harness_error"] = harness
-    meta["confirmed"] = bool(ok_clean and fails and (suite_ok or nosuite))
-    d = os.path.join("/verif/seeded", name)
-    os.makedirs(d, exist_ok=True)
-    shutil.copy(diff, os.path.join(d, "patch.diff"))
-    shutil.copy(demo, os.path.join(d, "demo.rs"))
-    old = {}
-    if os.path.exists(os.path.join(d, "meta.json")):
-        old = json.load(open(os.path.join(d, "meta.json")))
-    old.update(meta)
-    json.dump(old, open(os.path.join(d, "meta.json"), "w"), indent=1)
+    json.dump(meta, open(os.path.join(d, "meta.json"), "w"), indent=1)
     print(f"[{name}] fired: {sorted(fired)}")
 
 if __name__ == "__main__":
